@@ -46,7 +46,7 @@ Fixpoint fitsb (pc : bool) (k : nat) (e : expr) : bool :=
       | BMul | BDiv | BMod => (k <=? 10) && fitsb pc 10 l && ok pc l TMul && fitsb pc 11 r
       | BPow => (k <=? 11) && fitsb pc 12 l && ok pc l TPow && fitsb pc 11 r
       end
-  | ECond c t f => (k <=? 2) && fitsb pc 3 c && ok pc c TQuestion && fitsb false 0 t && fitsb false 0 f
+  | ECond c t f => (k <=? 2) && fitsb pc 3 c && ok pc c TQuestion && fitsb pc 0 t && fitsb pc 0 f
   | EAssign l r => (k =? 0) && is_lvalue l && fitsb pc 1 l && ok pc l TAssign && fitsb pc 0 r
   | EAugAssign op l r => (k =? 0) && is_lvalue l && fitsb pc 1 l && ok pc l TAssign && fitsb pc 0 r && aug_okb op
   | EIncr _ true x =>
